@@ -1417,9 +1417,10 @@ class C18(Property):
                     i, op, o['exc'], o.get('msg'), show(exp[i][0])), i, op, None, exp[i][0])
             want, want_tell = exp[i]
             if op[0] == 'x' and o['t'] != want_tell:
-                return self.fail('tell_after', 'tell() after the rejected call %d %r (raised %s) is %r; nothing was stored, '
+                return self.fail('tell_after', 'tell() after the rejected call %d %r (raised %s) is %r; nothing was stored%s, '
                                  'io.%s (which skipped the call) is at %d (max_size=%s)' % (
-                                     i, op, o.get('rej'), o['t'], 'StringIO' if text else 'BytesIO', want_tell, case['ms']),
+                                     i, op, o.get('rej'), o['t'], ' but the pieces before the refused one' if x_ref_ops(op, case['k']) else '',
+                                     'StringIO' if text else 'BytesIO', want_tell, case['ms']),
                                  i, op, o['t'], want_tell)
             if o['r'] != want:
                 tag = ('lines' if base(op) in LINE_OPS else 'read' if base(op) in ('r', 'ra') else
